@@ -61,6 +61,30 @@ fn run_prog(prog: &Prog, sometimes: bool) -> Vec<String> {
     let obs = Arc::new(Mutex::new(vec![]));
     let subscriber = Capture { obs: Arc::clone(&obs), next_id: AtomicU64::new(1), sometimes };
     tracing::subscriber::with_default(subscriber, || {
+        if sometimes {
+            // Before the program: an event whose `Debug` value panics half-way through its text; the guest
+            // catches the panic.  Nothing was observed for it, and what the program records afterwards on
+            // this thread is captured as if it had not happened.
+            if let Some(cs) = (0..prog.sites.len()).find(|&i| matches!(prog.sites[i].kind, CallSiteKind::Event) && !prog.sites[i].fields.is_empty()) {
+                let sites = make_sites(&prog.sites);
+                let hook: std::rc::Rc<dyn Fn(&str)> = std::rc::Rc::new(|text: &str| {
+                    if text == "hostile#partial" {
+                        std::panic::resume_unwind(Box::new("guest Debug impl panics"));
+                    }
+                });
+                DEBUG_HOOK.with(|h| *h.borrow_mut() = Some(hook));
+                let vals: ValSet = vec![(0, Some(Prim::Debug(Obj { display: "-".into(), debug: "hostile#partial".into() })))];
+                let site = sites[cs];
+                let before = obs.lock().unwrap().len();
+                let _ = std::panic::catch_unwind(std::panic::AssertUnwindSafe(|| {
+                    if site.is_enabled() {
+                        with_value_set(site, &vals, |vs| tracing::Event::dispatch(site.metadata(), vs));
+                    }
+                }));
+                DEBUG_HOOK.with(|h| *h.borrow_mut() = None);
+                obs.lock().unwrap().truncate(before);
+            }
+        }
         let r = exec(prog);
         assert_eq!(r.ops_skipped, 0, "C14 programs are single-threaded");
         assert!(r.enabled.iter().all(|e| *e) && r.events_disabled == 0, "the capturing subscriber enables everything");
